@@ -946,7 +946,7 @@ def run_C15(ctx):
     res = Result("for random (document, query, operator, right-hand side): the clause written in place vs the same clause "
                  "with the query (whole, or a prefix of it) or the literal bound to a `let` at file, rule and block scope, "
                  "with an unused (even erroring) variable added, referenced twice, shadowed, and through a parameterised "
-                 "rule; implementation verdicts must coincide; non-trivial = the in-place program evaluated without error")
+                 "rule; a `when` condition through an outer variable that the guarded block re-declares; `%v[n]` vs `q[n]`; implementation verdicts must coincide; non-trivial = the in-place program evaluated without error")
     n = 4000 if ctx.thorough() else 400
     cases, groups = [], []
     for i in range(n):
@@ -1189,7 +1189,8 @@ def run_C06(ctx):
                  "(valid / failing / skipping / syntactically broken / empty / unreadable / erroring) x 1..3 documents "
                  "(compliant / non-compliant / YAML / malformed / empty) x {plain, structured json/yaml/sarif/junit, payload "
                  "plain/structured, stdin}, run with the REAL binary for the process exit status; `cfn-guard test` with "
-                 "matching / mismatching / unparsable test files, single file and --dir; non-trivial = distinct scenario")
+                 "matching / mismatching / unparsable test files and test files whose expectation is not a status word (judged, not "
+                 "modelled), single file and --dir; non-trivial = distinct scenario")
     rng = random.Random(ctx.seed)
     scen = c06_scenarios(rng, 12000 if ctx.thorough() else 4600)
     jobs, keep = [], []
@@ -1697,8 +1698,9 @@ def statuses_from_structured(stdout):
 def run_C17(ctx):
     res = Result("random rule files that read both data and parameter keys x documents whose top-level keys are split at "
                  "random into 1..3 input-parameter files + the data file (disjoint and deliberately overlapping), plain and "
-                 "structured mode, real binary; compared with validating the single pre-merged document, with every order of "
-                 "the parameter files, and with the Lean merge+evaluator model; non-trivial = distinct split that evaluated")
+                 "structured mode, real binary, the document from --data files and piped on STDIN; compared with validating the single "
+                 "pre-merged document, with every order of the parameter files, and with the Lean merge+evaluator model; symlinked, "
+                 "same-named and oddly spelled (True, 0x1F90, ~ ..) parameter files; non-trivial = distinct split that evaluated")
     n = 2500 if ctx.thorough() else 220
     rng = random.Random(ctx.seed)
     jobs, meta = [], []
@@ -1919,7 +1921,9 @@ def run_C16(ctx):
                  "(all 3^k for k <= 2 rules, sampled beyond; some rules left without expectation) run through the real `test` "
                  "command in plain / json / yaml / junit format and single-file / --dir layout, compared with the statuses "
                  "`validate` (library entry point) assigns to the same rules on the same inputs, with the Lean classification "
-                 "model, and across formats; non-trivial = test run whose rules file parsed")
+                 "model, and across formats; the rules file between two other rules files of the directory whose expectations are met; "
+                 "raw number spellings (-0, 1e2, 0.10 ..) in JSON and YAML test files with expectations taken from `validate` on the "
+                 "same text; non-trivial = test run whose rules file parsed")
     import yaml as _yaml
     import xml.etree.ElementTree as ET
     import re as _re
@@ -2196,8 +2200,9 @@ CAPTURE_RULE = "rule cap {\nlet c = count(%n)\nm[ n | x exists ] !empty\n%c == 2
 def run_C12(ctx):
     res = Result("batches of 1..3 rules files (sharing variable, rule and key-capture names on purpose) x 1..4 documents, real "
                  "binary: structured and plain batch vs every pair validated alone, every order of the -r / -d arguments, "
-                 "directories with -a and -m (controlled mtimes), --payload lists; test files with n cases vs the cases "
-                 "alone; non-trivial = batch with >= 2 pairs that evaluated")
+                 "directories with -a and -m (controlled mtimes), `-d .` from inside the directory, files below dot-directories, "
+                 "symbolic links, --payload lists, -i parameters, SARIF / JUnit per data file; test files with n cases (named, "
+                 "unnamed, sharing one name) vs the cases alone; non-trivial = batch with >= 2 pairs that evaluated")
     n = 900 if ctx.thorough() else 70
     rng = random.Random(ctx.seed)
     jobs = []
@@ -2600,7 +2605,9 @@ def run_C07(ctx):
                  "cross product: summary table (-S all|pass|fail|skip|none, -v, -p), -o json / yaml with and without "
                  "--structured, junit, sarif, stdin data, --payload, and the library call `run_checks`; the PASS/FAIL/SKIP "
                  "partition, the file status and the exit code must coincide, JSON/YAML/XML must be well formed and denote "
-                 "the same data; non-trivial = row whose reference rendering evaluated")
+                 "the same data; documents as JSON, flow YAML and block YAML ending in a block scalar (optionally indented root), "
+                 "and Terraform-plan shaped documents (root resource_changes) for plain -o json|yaml vs --structured; "
+                 "non-trivial = row whose reference rendering evaluated")
     import yaml as _yaml
     import xml.etree.ElementTree as ET
     import re as _re
@@ -3252,8 +3259,9 @@ def run_C11(ctx):
                  "x {JSON compact, JSON pretty, YAML flow, YAML block with random quoting style and indent} x loaders {validate "
                  "(libyaml), test (serde_yaml), run_checks (serde_json then serde_yaml)}: typed values (hook) must coincide; "
                  "the document must equal itself written as a Guard literal; every short-form tag x {scalar, sequence} "
-                 "payload vs its long form under both loaders; malformed texts and non-string keys must be rejected; "
-                 "non-trivial = distinct (document, serialisation, loader) that loaded")
+                 "payload vs its long form under both loaders; malformed texts and non-string keys must be rejected; strings "
+                 "containing U+0000; the `validate` COMMAND on block YAML ending in a block scalar (|, |+, >, |-; indented root) "
+                 "against the JSON form; non-trivial = distinct (document, serialisation, loader) that loaded")
     import yaml as _yaml
     import re as _re0
     n = 3000 if ctx.thorough() else 300
@@ -3532,7 +3540,8 @@ def run_C14(ctx):
     res = Result("random rule files x documents: each file is re-spelled one token class at a time (keyword case, or / OR / "
                  "|OR|, not / NOT / !, = / :=, quotes, .n / [n], indentation-blank lines-line breaks, # comments), the REAL "
                  "parser's ASTs (positions erased) and the verdicts must coincide; explicit leading `this.`, clauses outside "
-                 "any rule vs `rule default`, type block vs Resources.*[ Type == .. ] block; non-trivial = distinct variant "
+                 "any rule vs `rule default`, type block vs Resources.*[ Type == .. ] block; indices beyond the i32 range as .n "
+                 "and [n]; filters beginning with a quoted name with / without blanks after `[`; non-trivial = distinct variant "
                  "that differs textually from its base")
     rng = random.Random(ctx.seed)
     n = 3000 if ctx.thorough() else 300
@@ -4744,7 +4753,9 @@ def run_C10(ctx):
                  "(validate --structured -o json): every reported {path, value} under from / traversed_to (and under to when its "
                  "path is non-empty) must resolve in the document to exactly that value; for every unresolved check the reached "
                  "value is in the document and the next queried segment is not; every `Path=<p>[L:l,C:c]` of a scalar must be the "
-                 "position PyYAML's composer gives that scalar in the data file text; evaluator correspondence with the Lean model "
+                 "position PyYAML's composer gives that scalar in the data file text; documents with an empty-string key whose "
+                 "children are named like its siblings, multi-line strings, and numbers at the float boundary (1e999, inf: any "
+                 "report produced must show the number); evaluator correspondence with the Lean model "
                  "on the same inputs; non-trivial = (rules, document, layout) with at least one reported path")
     n = 2600 if ctx.thorough() else 260
     rng = random.Random(ctx.seed * 1013 + 10)
@@ -4765,6 +4776,9 @@ def run_C10(ctx):
             # and everything below it "<parent>//child"
             doc["zlim"] = {"": {"size": 40, "owner": {"id": 7}, "tags": ["p", "q"]}, "size": 5, "owner": {"name": "x"}, "tags": ["r"]}
         rules = g.rules_file(doc, depth=2, cfn=cfn)
+        if "zl" in doc:
+            # a FAILING comparison of the (unsorted) data list with list literals: the reported value is the list as it is
+            rules += "rule zlist_eq {\nzl == [\"zz-never\", 1]\nzl != %s\n}\n" % g.lit_of(doc["zl"])
         if "zlim" in doc:
             rules += "rule zempty {\nzlim.*.size <= 10\nzlim.*.owner.name exists\nzlim.*.tags[*] == \"r\"\n}\n"
         if "znotes" in doc:
